@@ -68,6 +68,10 @@ class FakeWorld:
                    "float_int_of": lambda v: int(v),
                    "num_eq": lambda a, b: _num(a) and _num(b) and a == b,
                    "same": lambda a, b: a is b or (type(a) is type(b) and a == b)}
+        try:
+            self.ns.update(_types_ns())
+        except Exception:
+            pass
         self.contracts = {}
         self.theories = []
         self.spec_funcs = {}
@@ -143,9 +147,121 @@ def build(v, hint=None):
             return float(v["__float__"])
         if "__val__" in v:
             return build_val(v["__val__"])
+        if "__type__" in v:
+            return build_type(v["__type__"])
+        if "__schema__" in v:
+            return StubSchema(v.get("possible", []))
     if isinstance(v, list):
         return tuple(build(x) for x in v)
     return v
+
+
+_TYPES = {}
+
+
+def build_type(chain):
+    """[[kind, ident], ...] from the outermost wrapper to the named type -> real type objects
+    (the same ident always gives the same object)."""
+    from graphql.type import (GraphQLNonNull, GraphQLList, GraphQLScalarType, GraphQLObjectType,
+                              GraphQLInterfaceType, GraphQLUnionType, GraphQLEnumType,
+                              GraphQLInputObjectType, GraphQLField, GraphQLInputField, GraphQLString)
+    if chain[-1][0] in ("NONNULL", "LIST"):
+        raise Undecidable("type model without a named type within reach")
+    inner = None
+    for kind, ident in reversed(chain):
+        if ident in _TYPES:
+            inner = _TYPES[ident]
+            continue
+        nm = "T" + "".join(ch for ch in ident if ch.isalnum())
+        if kind == "NONNULL":
+            t = GraphQLNonNull(inner)
+        elif kind == "LIST":
+            t = GraphQLList(inner)
+        elif kind == "SCALAR":
+            t = GraphQLScalarType(nm)
+        elif kind == "OBJECT":
+            t = GraphQLObjectType(nm, {"f": GraphQLField(GraphQLString)})
+        elif kind == "INTERFACE":
+            t = GraphQLInterfaceType(nm, {"f": GraphQLField(GraphQLString)})
+        elif kind == "UNION":
+            t = GraphQLUnionType(nm, [])
+        elif kind == "ENUM":
+            t = GraphQLEnumType(nm, {"A": 1})
+        else:
+            t = GraphQLInputObjectType(nm, {"f": GraphQLInputField(GraphQLString)})
+        _TYPES[ident] = t
+        inner = t
+    return inner
+
+
+class StubSchema:
+    """A schema whose is_sub_type is the relation of the counter-model."""
+
+    def __init__(self, pairs):
+        self.pairs = {tuple(p) for p in pairs}
+
+    def is_sub_type(self, abstract_type, maybe_sub_type):
+        inv = {id(v): k for k, v in _TYPES.items()}
+        return (inv.get(id(abstract_type)), inv.get(id(maybe_sub_type))) in self.pairs
+
+
+def _types_ns():
+    from graphql.type import (is_non_null_type, is_list_type, is_leaf_type, is_input_type,
+                              is_output_type, is_object_type, is_interface_type, is_union_type,
+                              is_abstract_type, is_named_type)
+
+    def of(t):
+        return t.of_type
+
+    def EqT(a, b):
+        if is_non_null_type(a) or is_non_null_type(b):
+            return is_non_null_type(a) and is_non_null_type(b) and EqT(of(a), of(b))
+        if is_list_type(a) or is_list_type(b):
+            return is_list_type(a) and is_list_type(b) and EqT(of(a), of(b))
+        return a is b
+
+    def sub_named(s, a, b):
+        return a is b or (is_object_type(a) and is_union_type(b) and s.is_sub_type(b, a)) or (
+            (is_object_type(a) or is_interface_type(a)) and is_interface_type(b)
+            and s.is_sub_type(b, a))
+
+    def Sub(s, a, b):
+        if is_non_null_type(a):
+            return Sub(s, of(a), of(b) if is_non_null_type(b) else b)
+        if is_list_type(a) and is_list_type(b):
+            return Sub(s, of(a), of(b))
+        return bool(sub_named(s, a, b))
+
+    def Compat(a, b):
+        if is_non_null_type(b):
+            return is_non_null_type(a) and Compat(of(a), of(b))
+        if is_non_null_type(a):
+            return Compat(of(a), b)
+        if is_list_type(b):
+            return is_list_type(a) and Compat(of(a), of(b))
+        if is_list_type(a):
+            return False
+        return a is b
+
+    def SameShapeW(a, b):
+        if is_non_null_type(a) or is_non_null_type(b):
+            return is_non_null_type(a) and is_non_null_type(b) and SameShapeW(of(a), of(b))
+        if is_list_type(a) or is_list_type(b):
+            return is_list_type(a) and is_list_type(b) and SameShapeW(of(a), of(b))
+        if is_leaf_type(a) or is_leaf_type(b):
+            return a is b
+        return True
+
+    kinds = {"NONNULL": is_non_null_type, "LIST": is_list_type, "OBJECT": is_object_type,
+             "INTERFACE": is_interface_type, "UNION": is_union_type}
+    return {"of": of, "EqT": EqT, "Sub": Sub, "Compat": Compat, "SameShapeW": SameShapeW,
+            "InputTy": is_input_type, "OutputTy": is_output_type, "NonNull": is_non_null_type,
+            "ListTy": is_list_type, "NamedTy": is_named_type, "LeafTy": is_leaf_type,
+            "possible": lambda s, a, b: s.is_sub_type(a, b),
+            "kind_is": lambda t, k: kinds[k](t) if k in kinds else False,
+            "abstract_ty": is_abstract_type,
+            "is_undefined": lambda v: v is __import__("graphql").pyutils.Undefined,
+            "instance_of": lambda v, name: type(v).__name__ == name}
 
 
 class _Custom:
@@ -183,6 +299,17 @@ def build_val(d):
         return set()
     if tg == "bytes":
         return b""
+    for key in d.get("instance_of", []):
+        if not key.startswith("class:graphql.language.ast."):
+            continue
+        try:
+            cls = resolve_atom(key)
+            try:
+                return cls()
+            except Exception:
+                return cls.__new__(cls)
+        except Exception:
+            continue
     return _Custom()
 
 
